@@ -50,7 +50,7 @@ func (r *Run) opDeviceAuthz(st Step) {
 	}
 	if dc == "" {
 		r.logf("%s -> %d %s", desc, res.Status, res.ErrName)
-		if !authValid(cs, st.A) && !r.Fault.fired && res.ErrName != "invalid_client" && res.ErrName != "invalid_request" {
+		if !authValid(cs, st.A) && !r.anyFault() && res.ErrName != "invalid_client" && res.ErrName != "invalid_request" {
 			r.violate("C10", "wrong-error-class", "device_authorization", "%s: expected invalid_client/invalid_request, got %s", desc, res.ErrName)
 		}
 		return
@@ -82,6 +82,7 @@ func (r *Run) opDeviceAuthz(st Step) {
 	}
 	r.secret(dc, "device_code")
 	r.secret(uc, "user_code")
+	r.checkMinted(dc, "dc")
 	r.logf("%s -> grant %d %s", desc, g.N, credNames(cd, cu))
 	// confinement of the request (C12)
 	gg := *g
@@ -174,7 +175,7 @@ func (r *Run) opDeviceToken(st Step) {
 		g.Unspec = true
 		return
 	}
-	faulted := r.Fault.fired
+	faulted := r.anyFault()
 	if val != dc.Val {
 		if tokens {
 			r.violate("C06", "tampered-accepted", "dc", "a mutated device code (%s) was exchanged for tokens", st.p("mutate"))
@@ -366,7 +367,7 @@ func (r *Run) opPARPush(st Step) {
 	}
 	if uri == "" {
 		r.logf("%s -> %d %s", desc, res.Status, res.ErrName)
-		if !authValid(cs, st.A) && !r.Fault.fired && res.ErrName != "invalid_client" && res.ErrName != "invalid_request" {
+		if !authValid(cs, st.A) && !r.anyFault() && res.ErrName != "invalid_client" && res.ErrName != "invalid_request" {
 			r.violate("C10", "wrong-error-class", "par", "%s: expected invalid_client/invalid_request, got %s", desc, res.ErrName)
 		}
 		return
@@ -393,6 +394,7 @@ func (r *Run) opPARPush(st Step) {
 		c.Extra[k] = form.Get(k)
 	}
 	c.Extra["_challenge"], c.Extra["_method"], c.Extra["_verifier"] = challenge, method, verifier
+	r.checkMinted(uri, "par")
 	if e, ok := res.JSON["expires_in"].(float64); ok {
 		c.ExpiresIn = time.Duration(e) * time.Second
 		if d := c.ExpiresIn - c.Life; d > Tol || d < -Tol {
@@ -495,7 +497,7 @@ func (r *Run) opAuthorizePAR(st Step) {
 	}
 	now := r.now()
 	exp, _ := r.L.Expect(pc, now)
-	faulted := r.Fault.fired
+	faulted := r.anyFault()
 	var mustRefuse []string
 	if pc.State != Live {
 		mustRefuse = append(mustRefuse, "C17")
@@ -738,15 +740,18 @@ func (r *Run) opClientChange(st Step) {
 
 func (r *Run) opRotateGlobal(st Step) {
 	k := r.W.K
-	cur := k.Secret
-	if cur == "" {
-		cur = DefaultSecret
+	if k.Secret == "" {
+		k.Secret = DefaultSecret
 	}
+	cur := k.Secret
 	switch st.V {
 	case "keep_old": // new current secret, old one listed as rotated
 		k.RotatedSecrets = append([]string{cur}, k.RotatedSecrets...)
 		k.Secret = st.p("new")
 	case "forget_old": // new current secret, old one NOT listed
+		k.Secret = st.p("new")
+	case "short": // a secret shorter than 32 bytes must be refused: nothing can be minted, nothing validates under it
+		k.RotatedSecrets = append([]string{cur}, k.RotatedSecrets...)
 		k.Secret = st.p("new")
 	case "drop_rotated":
 		k.RotatedSecrets = nil
@@ -755,6 +760,7 @@ func (r *Run) opRotateGlobal(st Step) {
 			k.RotatedSecrets[i], k.RotatedSecrets[j] = k.RotatedSecrets[j], k.RotatedSecrets[i]
 		}
 	}
+	r.shortSecret = len(k.Secret) < 32
 	r.W.Cfg.GlobalSecret = []byte(k.Secret)
 	r.W.Cfg.RotatedGlobalSecrets = nil
 	for _, s := range k.RotatedSecrets {
@@ -773,7 +779,9 @@ func (r *Run) opRotateGlobal(st Step) {
 			c.Extra["minted_under"] = cur
 		}
 		if strings.Count(c.Val, ".") == 1 && c.State == Live { // opaque HMAC credential
-			if !valid[c.Extra["minted_under"]] {
+			if r.shortSecret {
+				c.Unspec = true // a too-short current secret is refused; what still validates under the rotated list is not pinned down
+			} else if !valid[c.Extra["minted_under"]] {
 				r.L.Kill(c, Dead, "C06")
 			}
 		}
